@@ -194,25 +194,43 @@ struct CycleDetector<'a> {
 impl<'a> CycleDetector<'a> {
     fn check_fields_for_cycles(&mut self, container: &'a dyn Container<Field>) {
         for field in container.contents() {
-            self.check_field_type_for_cycles(field.data_type(), field);
+            self.check_field_type_for_cycles(field.data_type(), field, &mut Vec::new());
         }
     }
 
-    fn check_field_type_for_cycles(&mut self, type_ref: &'a TypeRef, origin: &'a Field) {
+    /// Checks the type of `origin` (or a type nested in it) for cycles. `checked` holds the results, sequences, and
+    /// dictionaries that were already checked for this field. When they're shared through type aliases, they'd
+    /// otherwise be checked once for every path that leads to them.
+    fn check_field_type_for_cycles(
+        &mut self,
+        type_ref: &'a TypeRef,
+        origin: &'a Field,
+        checked: &mut Vec<&'a dyn Type>,
+    ) {
+        let this_type = type_ref.definition();
+        if checked.iter().any(|checked_type| std::ptr::addr_eq(*checked_type, this_type)) {
+            return;
+        }
+
         match type_ref.concrete_type() {
             // For struct or enum types, we push them onto the stack, and attempt to recursively check them.
             Types::Struct(struct_ref) => self.push_to_stack_and_check(struct_ref, origin),
             Types::Enum(enum_ref) => self.push_to_stack_and_check(enum_ref, origin),
 
             Types::ResultType(result_type) => {
-                self.check_field_type_for_cycles(&result_type.success_type, origin);
-                self.check_field_type_for_cycles(&result_type.failure_type, origin);
+                self.check_field_type_for_cycles(&result_type.success_type, origin, checked);
+                self.check_field_type_for_cycles(&result_type.failure_type, origin, checked);
+                checked.push(this_type);
             }
 
-            Types::Sequence(sequence) => self.check_field_type_for_cycles(&sequence.element_type, origin),
+            Types::Sequence(sequence) => {
+                self.check_field_type_for_cycles(&sequence.element_type, origin, checked);
+                checked.push(this_type);
+            }
             Types::Dictionary(dictionary) => {
-                self.check_field_type_for_cycles(&dictionary.key_type, origin);
-                self.check_field_type_for_cycles(&dictionary.value_type, origin);
+                self.check_field_type_for_cycles(&dictionary.key_type, origin, checked);
+                self.check_field_type_for_cycles(&dictionary.value_type, origin, checked);
+                checked.push(this_type);
             }
 
             // Primitive and custom types are terminal since they can't reference any other types.
